@@ -769,6 +769,9 @@ func (p *smtPrinter) define(t *Term) {
 			op = m
 		}
 		body = "(" + op + " " + strings.Join(refs, " ") + ")"
+		if t.op == "f32round" {
+			body += ")"
+		}
 	}
 	fmt.Fprintf(&p.sb, "(define-fun t%d () %s %s)\n", t.id, sortName(t.sort), body)
 }
@@ -777,6 +780,8 @@ var smtOpNames = map[string]string{
 	"f+": "fp.add RNE", "f-": "fp.sub RNE", "f*": "fp.mul RNE", "f/": "fp.div RNE",
 	"f<": "fp.lt", "f<=": "fp.leq", "f=": "fp.eq", "fneg": "fp.neg", "fisnan": "fp.isNaN", "fisinf": "fp.isInfinite",
 	"i2f": "(_ to_fp 11 53) RNE",
+	// a binary64 rounded to binary32 and widened again (strconv.FormatFloat with bitSize 32, float32 conversions)
+	"f32round": "(_ to_fp 11 53) RNE ((_ to_fp 8 24) RNE",
 }
 
 // script renders declarations + definitions + assertions for a query.
